@@ -797,7 +797,7 @@ class Selector(cssutils.util.Base2):
 
             elif (
                 typ == 'FUNCTION'
-                and val == 'not('
+                and self._normalize(val) == 'not('
                 and tokens
                 and ':' == self._tokenvalue(tokens[-1])
             ):
